@@ -431,6 +431,27 @@ class C12(Property):
         o.update({'kind': 'roundtrip', 'op': 'roundtrip'})
         return o
 
+    def _float_rt_case(self, rng, tier):
+        """print -> parse with float coefficients that need 13-17 significant digits (checks=() on both sides)"""
+        token = '->' if rng.random() < 0.6 else '='
+        keys = rng.sample(['A', 'B', 'C', 'H2O', '(NH4)2SO4', 'Fe+3', 'e-', 'X(aq)'], rng.randint(2, 5))
+
+        def val():
+            r = rng.random()
+            if r < 0.25:
+                return sum(rng.choice([1.1, 2.2, 0.1, 0.2, 0.7, 1.4, 1.2, 3.3]) for _ in range(rng.randint(2, 4)))
+            if r < 0.45:
+                return rng.randint(1, 20) / rng.choice([3, 7, 9, 11, 13])
+            if r < 0.6:
+                return rng.randint(1, 9) + rng.choice([1e-15, 2e-15, 4.4e-16, -4.4e-16, 1e-13, 1e-12])
+            if r < 0.8:
+                return rng.random() * 10 ** rng.randint(-3, 6)
+            return float(rng.randint(1, 10 ** 6)) / 10 ** rng.randint(1, 8)
+        nr = rng.randint(1, len(keys) - 1)
+        return {'kind': 'float_rt', 'arrow': token, 'reac': [[k, repr(val())] for k in sorted(keys[:nr])],
+                'prod': [[k, repr(val())] for k in sorted(keys[nr:])],
+                'sumline': ' + '.join('%s %s' % (rng.choice(['1.1', '2.2', '0.1', '0.2', '1.4', '1.2', '0.7']), rng.choice('AB')) for _ in range(rng.randint(2, 4)))}
+
     COMMENT_SETS = [None, None, None, ['#'], ['//'], ['#', '%%'], ['%'], ['//', '#'], ['rem'], ['--', ';;'], ['#', '//', '!']]
 
     def _system_case(self, rng, tier):
@@ -623,6 +644,8 @@ class C12(Property):
                 cases.append(self._eq_case(rng, tier))
             elif r < 0.633:
                 cases.append(self._unit_case(rng, tier))
+            elif r < 0.645:
+                cases.append(self._float_rt_case(rng, tier))
             elif r < 0.69:
                 cases.append(self._print_case(rng, tier))
             elif r < 0.78:
@@ -1007,6 +1030,26 @@ class C12(Property):
                 return '%r == %r gives %r, attribute-wise comparison %r (%s)' % (str(a), str(b), a == b, want, c['how'])
             if not (a == a) or a != a or (a == 5) is not False or a.__eq__(5) is not NotImplemented or a == None:  # noqa
                 return 'identity / foreign-type comparison of %r is wrong' % str(a)
+            return None
+        if k == 'float_rt':
+            cls = self._cls(c['arrow'])
+            objs = [cls({k: float(v) for k, v in c['reac']}, {k: float(v) for k, v in c['prod']}, checks=())]
+            try:
+                objs.append(cls.from_string(c['sumline'] + ' ' + c['arrow'] + ' Zz', globals_=False, checks=()))
+            except Exception as e:
+                return 'from_string(%r, checks=()) raised %s: %s' % (c['sumline'], exc_name(e), e)
+            for r in objs:
+                s1 = r.string()
+                try:
+                    r2 = cls.from_string(s1, globals_=False, checks=())
+                except Exception as e:
+                    return 'from_string(%r, checks=()) raised %s: %s' % (s1, exc_name(e), e)
+                for attr in ('reac', 'prod'):
+                    a, b = getattr(r, attr), getattr(r2, attr)
+                    if list(a) != list(b) or any(float(a[k]) != float(b[k]) for k in a):
+                        return 'print/parse of float coefficients: %r printed as %r, read back as %r' % (dict(a), s1, dict(b))
+                if not (r2 == r):
+                    return 'from_string(r.string()) != r for float coefficients %r' % s1
             return None
         if k == 'unit_param':
             import chempy.units as cu
